@@ -45,15 +45,15 @@ def hPt2 : Handler := fun args impl => do
   let l0 ← impl.parse "lerp0" pt2
   if !(l0.x == a.x && l0.y == a.y) then fails := fails ++ ["lerp_zero"]
   let l1 ← impl.parse "lerp1" pt2
-  let sc := 1e-12 * (1.0 + mag2 a + mag2 b)
+  let sc := F!(1e-12) * (F!(1.0) + mag2 a + mag2 b)
   if !((l1.x - b.x).abs ≤ sc && (l1.y - b.y).abs ≤ sc) then fails := fails ++ ["lerp_one"]
   let nz ← impl.parse "normalized" pt2
-  if mag2 a > 0.0 then
-    if !(close (nz.x * nz.x + nz.y * nz.y) 1.0 1e-12) then fails := fails ++ ["normalized_len"]
-    if !((a.x * nz.y - a.y * nz.x).abs ≤ 1e-12 * mag2 a && a.x * nz.x + a.y * nz.y > 0.0) then
+  if mag2 a > F!(0.0) then
+    if !(close (nz.x * nz.x + nz.y * nz.y) F!(1.0) F!(1e-12)) then fails := fails ++ ["normalized_len"]
+    if !((a.x * nz.y - a.y * nz.x).abs ≤ F!(1e-12) * mag2 a && a.x * nz.x + a.y * nz.y > F!(0.0)) then
       fails := fails ++ ["normalized_direction"]
   let tx ← impl.parse "to_xz" pt3
-  if !(tx.x == a.x && tx.y == 0.0 && tx.z == a.y) then fails := fails ++ ["to_xz_slots"]
+  if !(tx.x == a.x && tx.y == F!(0.0) && tx.z == a.y) then fails := fails ++ ["to_xz_slots"]
   let ap ← impl.parse "as_pt3" pt3
   if !(ap.x == a.x && ap.y == a.y && ap.z == v) then fails := fails ++ ["as_pt3_slots"]
   if i < 2 then
@@ -94,22 +94,22 @@ def hPt3 : Handler := fun args impl => do
   let dv ← impl.parse "div" pt3
   if !(dv.x == a.x / k && dv.y == a.y / k && dv.z == a.z / k) then fails := fails ++ ["div_componentwise"]
   let cr ← impl.parse "cross" pt3
-  let m := (1.0 + mag3 a) * (1.0 + mag3 b)
-  if !((cr.dot a).abs ≤ 1e-12 * m * (1.0 + mag3 a) && (cr.dot b).abs ≤ 1e-12 * m * (1.0 + mag3 b)) then
+  let m := (F!(1.0) + mag3 a) * (F!(1.0) + mag3 b)
+  if !((cr.dot a).abs ≤ F!(1e-12) * m * (F!(1.0) + mag3 a) && (cr.dot b).abs ≤ F!(1e-12) * m * (F!(1.0) + mag3 b)) then
     fails := fails ++ ["cross_perpendicular"]
-  if !(close cr.len2 (a.len2 * b.len2 - a.dot b * a.dot b) 1e-9 ||
-       (cr.len2 - (a.len2 * b.len2 - a.dot b * a.dot b)).abs ≤ 1e-10 * a.len2 * b.len2) then
+  if !(close cr.len2 (a.len2 * b.len2 - a.dot b * a.dot b) F!(1e-9) ||
+       (cr.len2 - (a.len2 * b.len2 - a.dot b * a.dot b)).abs ≤ F!(1e-10) * a.len2 * b.len2) then
     fails := fails ++ ["cross_lagrange"]
   let l0 ← impl.parse "lerp0" pt3
   if !(l0.x == a.x && l0.y == a.y && l0.z == a.z) then fails := fails ++ ["lerp_zero"]
   let l1 ← impl.parse "lerp1" pt3
-  let sc := 1e-12 * (1.0 + mag3 a + mag3 b)
+  let sc := F!(1e-12) * (F!(1.0) + mag3 a + mag3 b)
   if !((l1.x - b.x).abs ≤ sc && (l1.y - b.y).abs ≤ sc && (l1.z - b.z).abs ≤ sc) then
     fails := fails ++ ["lerp_one"]
   let nz ← impl.parse "normalized" pt3
-  if mag3 a > 0.0 then
-    if !(close nz.len2 1.0 1e-12) then fails := fails ++ ["normalized_len"]
-    if !(mag3 (a.cross nz) ≤ 1e-12 * mag3 a && a.dot nz > 0.0) then
+  if mag3 a > F!(0.0) then
+    if !(close nz.len2 F!(1.0) F!(1e-12)) then fails := fails ++ ["normalized_len"]
+    if !(mag3 (a.cross nz) ≤ F!(1e-12) * mag3 a && a.dot nz > F!(0.0)) then
       fails := fails ++ ["normalized_direction"]
   let ap ← impl.parse "as_pt4" pt4
   if !(ap.x == a.x && ap.y == a.y && ap.z == a.z && ap.w == v) then fails := fails ++ ["as_pt4_slots"]
@@ -156,18 +156,18 @@ def hPt4 : Handler := fun args impl => do
     fails := fails ++ ["div_componentwise"]
   let a3 := a.asPt3; let b3 := b.asPt3
   let d ← impl.parse "dot" f64
-  if !(close d (a3.dot b3) 1e-12) then fails := fails ++ ["dot_is_xyz_dot"]
+  if !(close d (a3.dot b3) F!(1e-12)) then fails := fails ++ ["dot_is_xyz_dot"]
   let cr ← impl.parse "cross" pt4
-  let m := (1.0 + mag3 a3) * (1.0 + mag3 b3)
-  if !((cr.asPt3.dot a3).abs ≤ 1e-12 * m * (1.0 + mag3 a3) && (cr.asPt3.dot b3).abs ≤ 1e-12 * m * (1.0 + mag3 b3)
-       && cr.w == 0.0) then
+  let m := (F!(1.0) + mag3 a3) * (F!(1.0) + mag3 b3)
+  if !((cr.asPt3.dot a3).abs ≤ F!(1e-12) * m * (F!(1.0) + mag3 a3) && (cr.asPt3.dot b3).abs ≤ F!(1e-12) * m * (F!(1.0) + mag3 b3)
+       && cr.w == F!(0.0)) then
     fails := fails ++ ["cross_perpendicular_xyz"]
   let l0 ← impl.parse "lerp0" pt4
   if !(l0.x == a.x && l0.y == a.y && l0.z == a.z && l0.w == a.w) then fails := fails ++ ["lerp_zero"]
   let nz ← impl.parse "normalized" pt4
-  if mag3 a3 > 0.0 then
-    if !(close nz.asPt3.len2 1.0 1e-12) then fails := fails ++ ["normalized_len_xyz"]
-    if !(mag3 (a3.cross nz.asPt3) ≤ 1e-12 * mag3 a3 && a3.dot nz.asPt3 > 0.0) then
+  if mag3 a3 > F!(0.0) then
+    if !(close nz.asPt3.len2 F!(1.0) F!(1e-12)) then fails := fails ++ ["normalized_len_xyz"]
+    if !(mag3 (a3.cross nz.asPt3) ≤ F!(1e-12) * mag3 a3 && a3.dot nz.asPt3 > F!(0.0)) then
       fails := fails ++ ["normalized_direction"]
   let ap ← impl.parse "as_pt3" pt3
   if !(ap.x == a.x && ap.y == a.y && ap.z == a.z) then fails := fails ++ ["as_pt3_slots"]
